@@ -123,6 +123,7 @@ class Run:
         self.rng = rng
         self.feats = feats
         self.level = level
+        V.register_late(param, idx)
         ns = {n: _tagged(param)() for n in NAMES}
         ns['dyn'] = param.Number(default=0.5)       # may hold a value generator; never watched, only triggered
         ns['ev'] = param.Event()                    # announced by trigger at quiet moments; has a watcher of its own
